@@ -15,7 +15,7 @@ from ..prop import Prop
 from ..ref import frames
 from .. import ops
 
-ALPHABET = ["connect", "op_ok", "op_raise", "drop", "disconnect", "refused", "ctx_ok", "ctx_exc", "op_big"]
+ALPHABET = ["connect", "op_ok", "op_raise", "drop", "disconnect", "refused", "ctx_ok", "ctx_exc", "op_big", "connect_cancelled"]
 
 
 class Boom(Exception):
@@ -52,7 +52,10 @@ def legal(history):
     """Histories the statement quantifies over (no connect while connected, no operation while disconnected)."""
     connected = False
     for a in history:
-        if a in ("connect", "refused", "ctx_ok", "ctx_exc"):
+        if a == "connect_cancelled":
+            if connected:
+                return False
+        elif a in ("connect", "refused", "ctx_ok", "ctx_exc"):
             if connected and a == "refused":
                 return False
             # connect or async-with on a client that is already connected is an input like any other: afterwards the
@@ -85,10 +88,10 @@ class C18(Prop):
     level = "fault_enumeration"
     technique = "action/fault histories against a fake device; flag-vs-model assertion after every action, device-side end-of-stream observation after every disconnect"
     rule = ("history = sequence over {connect, successful operation, operation that raises (empty login reply), device drops the connection "
-            "and the client keeps using it, disconnect, refused connect, async-with with normal body, async-with whose body raises}; all legal "
+            "and the client keeps using it, disconnect, refused connect (the device gone, or only this protocol's port closed), async-with with normal body, async-with whose body raises, operation answered with 6 KB, connect cancelled after 0..4 loop cycles followed by a reconnect}; all legal "
             "histories of length <= 4 for both API classes (exhaustive, both tiers) plus random legal histories of length 5..10; distinct = "
             "(api type, history); a second, independent instance stays connected to another device throughout and must be unaffected; non-trivial = histories containing a failure action (op_raise, drop, refused, ctx_exc) or a reconnect")
-    level_text = ("All legal action histories up to length 4 over an 8-letter alphabet are enumerated for both API classes on every run, longer "
+    level_text = ("All legal action histories up to length 4 over a 10-letter alphabet are enumerated for both API classes on every run, longer "
                   "ones sampled; after each action the flag is compared with the model and after each disconnect the device must observe end-of-stream.")
     level_note = "connect while connected and operations while disconnected are outside the statement; whether disconnect() raises after a device-side drop is not judged, only the flag and the socket"
     assumptions = ["an operation 'raises' by receiving an empty login reply", "refused connect = the device's listener is closed"]
@@ -154,7 +157,15 @@ class C18(Prop):
         # a second, independent instance that stays connected to another device for the whole history
         bystander = cls(self.dev2.ip, "d4e5f6", "27")
         n2 = len(self.dev2.conns)
-        await bystander.connect()
+        try:
+            await bystander.connect()
+        except Exception as exc:
+            acc.violation("connect-failed", f"type {t}: connect to a listening device raised {type(exc).__name__}: {exc}", {"history": history})
+            try:
+                await bystander.disconnect()
+            except Exception:
+                pass
+            return
         for _ in range(300):
             if len(self.dev2.conns) > n2:
                 break
@@ -260,6 +271,58 @@ class C18(Prop):
                     trace.append(f"connect raised {type(exc).__name__}")
                     acc.violation("connect-failed", f"history {history}: connect to a listening device raised {type(exc).__name__}: {exc}", {"history": history})
                 await note_new_conn(before)
+            elif a == "connect_cancelled":
+                # the caller gives up on connect() after k loop cycles (task cancelled, wait_for / timeout expired) ...
+                before = len(dev.conns)
+                mode["login"] = "ok"
+                k = rs.randrange(0, 5)
+                task = asyncio.ensure_future(api.connect())
+                for _ in range(k):
+                    await asyncio.sleep(0)
+                task.cancel()
+                try:
+                    await task
+                    outcome = "finished before the cancel"
+                    model = True
+                    await note_new_conn(before)
+                except asyncio.CancelledError:
+                    outcome = "cancelled"
+                except Exception as exc:
+                    outcome = f"raised {type(exc).__name__}"
+                    acc.violation("connect-failed", f"history {history}: a connect cancelled after {k} cycles raised {type(exc).__name__}: {exc}", {"history": history})
+                acc.count("connects_cancelled_midway" if outcome == "cancelled" else "connects_finished_before_the_cancel")
+                trace.append(f"connect cancelled after {k} cycles: {outcome}")
+                check_flag(a)
+                if model:
+                    try:
+                        await bounded(api.disconnect())
+                    except Exception as exc:
+                        acc.violation("disconnect-raised", f"history {history}: disconnect raised {type(exc).__name__}: {exc}", {"history": history, "trace": trace})
+                    model = False
+                    await expect_eof(a)
+                    cur["conn"] = None
+                # ... and the client can connect again afterwards
+                before = len(dev.conns)
+                try:
+                    await bounded(api.connect())
+                    model = True
+                    await note_new_conn(before)
+                    check_flag("connect after a cancelled connect")
+                    out = await do_op()
+                    if out != "returned":
+                        acc.violation("healthy-operation-failed", f"history {history}: operation after reconnecting ended with {out}", {"history": history, "trace": trace})
+                    await bounded(api.disconnect())
+                    model = False
+                    await expect_eof("disconnect after a cancelled connect")
+                    cur["conn"] = None
+                except Hung as exc:
+                    hung("connect", exc)
+                    break
+                except Exception as exc:
+                    trace.append(f"connect after cancelled connect raised {type(exc).__name__}")
+                    acc.violation("cannot-connect-after-cancelled-connect", f"type {t} history {history}: after a connect() that was cancelled after {k} loop cycles "
+                                  f"({outcome}), connect raised {type(exc).__name__}: {exc}", {"history": history, "trace": trace})
+                    model = api.connected and False
             elif a == "op_ok":
                 mode["login"] = "ok"
                 out = await do_op()
@@ -314,7 +377,14 @@ class C18(Prop):
                 await expect_eof(a)
                 cur["conn"] = None
             elif a == "refused":
-                await dev.stop()
+                # the device is gone altogether - or only the control port of this protocol type is closed while the other one listens
+                only_own_port = rs.random() < 0.5
+                if only_own_port:
+                    await dev.stop_port(api._port)
+                    others_before = len(dev.conns)
+                    acc.count("refused_with_the_other_control_port_listening")
+                else:
+                    await dev.stop()
                 try:
                     await bounded(api.connect())
                     trace.append("refused: connect returned")
@@ -330,6 +400,12 @@ class C18(Prop):
                 except Exception as exc:
                     trace.append(f"refused: {type(exc).__name__}")
                     acc.violation("refused-connect-wrong-exception", f"history {history}: refused connect raised {type(exc).__name__}", {"history": history})
+                if only_own_port:
+                    for _ in range(10):
+                        await asyncio.sleep(0)
+                    if len(dev.conns) > others_before:
+                        acc.violation("refused-connect-went-to-another-port", f"type {t} history {history}: port {api._port} refused the connection and the client "
+                                      f"connected to port {dev.conns[-1].port} of the same address instead", {"history": history, "trace": trace})
                 await dev.start()
                 dev.conns.clear()
             elif a in ("ctx_ok", "ctx_exc"):
@@ -414,7 +490,10 @@ class C18(Prop):
         except Exception as exc:
             acc.violation("other-instance-affected", f"type {t} history {history}: the independent instance can no longer talk to its device: "
                           f"{type(exc).__name__}: {exc}", {"history": history, "trace": trace})
-        await bystander.disconnect()
+        try:
+            await bystander.disconnect()
+        except Exception as exc:
+            acc.violation("disconnect-raised", f"type {t}: disconnect of an independent, healthy instance raised {type(exc).__name__}: {exc}", {"history": history})
         if bconn is not None and not await td.wait_eof(bconn, 5.0):
             acc.violation("socket-left-open", f"type {t}: the independent instance's disconnect did not reach its device", {"history": history})
         self.dev2.conns.clear()
@@ -428,7 +507,7 @@ class C18(Prop):
                 c.closed = True
                 c.writer.close()
         dev.conns.clear()
-        failure = any(a in ("op_raise", "drop", "refused", "ctx_exc") for a in history)
+        failure = any(a in ("op_raise", "drop", "refused", "ctx_exc", "connect_cancelled") for a in history)
         reconnect = sum(1 for a in history if a in ("connect", "ctx_ok", "ctx_exc")) >= 2
         if failure or reconnect:
             acc.sig(env.sig(t, history))
